@@ -1411,6 +1411,7 @@ func TestC09(t *testing.T) {
 	}
 	run.Assume("reference = rsmt2d extension of the generated ODS; verification = the client-side shwap verifiers (their soundness is C01/C02)")
 	run.Assume("resource limits = shrex.SetResourceLimits over libp2p defaults, auto-scaled to this machine, as nodebuilder/p2p.bridgeResources does")
+	run.Assume("server parameters: defaults, except WriteTimeout and HandleRequestTimeout raised to 15 min so that machine load cannot become a truncated reply (the server half-closes, not resets, after a failed send); the 5 s ReadTimeout is what ends stalled requests")
 	run.Assume("recovered handler panics end in a stream reset, which the statement allows: counted as a diagnostic (server/recovered_handler_panics), not a violation")
 }
 
